@@ -52,7 +52,9 @@ def domainPairs : List (String × String) :=
 /-- signatures of the listed findings (known_findings.json, property C29) -/
 def attributeTo (o : Obs) : Option String :=
   let up := o.sql.toUpper
-  if o.outcome == "panic" && contains o.kind "streaming_k_way_merge" && o.setup.startsWith "spill" && contains up "ORDER BY"
+  -- (the frame is missing from `kind` when the binary was replaced while running: then the crash site is arrow_select::take + index out of bounds)
+  if o.outcome == "panic" && (contains o.kind "streaming_k_way_merge" || (contains o.kind "arrow-select" && contains o.kind "take.rs" && contains o.detail "index out of bounds"))
+     && o.setup.startsWith "spill" && contains up "ORDER BY"
      && (o.neutral == "ok" || o.neutral == "err") then some "C29-F1"
   else if o.outcome == "abort" && o.kind == "stack-overflow" && chainOps up ≥ 2000 then some "C29-F2"
   else if o.outcome == "timeout" && o.phase == "parse" && maxDepth o.sql ≥ 41 && (contains up "CAST(" || contains up "ARRAY[") then some "C29-F3"
